@@ -42,7 +42,7 @@ RULE = (
     "interleaving restricted to __new__/_multiply/_divide lines)."
 )
 ASSUMPTIONS = [
-    "line granularity, not bytecode granularity: a thread is only preempted between source lines of measured/__init__.py; C-level lru_cache internals and dict operations are atomic (they hold the GIL)",
+    "line granularity, not bytecode granularity: a thread is only preempted between source lines of measured/__init__.py and of Python-level library code it calls; C-level lru_cache internals and dict operations are atomic (they hold the GIL)",
     "behaviour of a case does not depend on the value of the fresh exponent, only on its freshness (the exponent is drawn from a process-wide counter at run time and is not stored in the case)",
     "Logarithm/LogarithmicUnit tables are outside the statement (dimensions, prefixes, units only)",
     "a repair that serialises __new__ with a lock would need scheduler support for blocked threads (a thread blocking on a lock held by a parked thread is reported as a harness error, exit 2, never as a violation)",
